@@ -16,7 +16,7 @@ ANCHORS = ["Interval.contains", "Interval.overlaps", "Interval.intersection", "A
 REQUIRED = ["interval.contains", "interval.contains.next-to-a-bound", "interval.overlaps", "interval.intersection", "interval.mul.neg", "interval.div.neg",
             "interval.mul.zero", "interval.round", "interval.reject", "angle.contains.float", "angle.contains.int",
             "angle.len>pi", "angle.wrap", "angle.shift", "angle.contains.interval", "angle.contains.numpy",
-            "angle.many-turns-away", "rebound.start-lowered", "rebound.end-raised"]
+            "angle.many-turns-away", "interval.in-operator.interval", "rebound.start-lowered", "rebound.end-raised"]
 ASSUMPTIONS = ["angles within 1e-9 of an interval end are not judged (skipped_band)",
                "float division/multiplication are IEEE correctly rounded, so the exact rational result rounded to "
                "double is the expected value"]
@@ -105,6 +105,13 @@ def run(ctx):
             elif bool(r[1]) != exp_cont:
                 viol("Interval.contains(Interval)/wrong", "[%r,%r].contains([%r,%r])=%r" % (a, b, c, d, r[1]),
                      [a, b, c, d])
+            # the operator form says the same
+            r = _exc(lambda: ov in iv)
+            ctx.feature("interval.in-operator.interval")
+            if r[0] == "exc":
+                viol("Interval.__contains__(Interval)/raises", "%r" % (r[1],), [a, b, c, d])
+            elif bool(r[1]) != exp_cont:
+                viol("Interval.__contains__(Interval)/wrong", "([%r,%r] in [%r,%r])=%r" % (c, d, a, b, r[1]), [a, b, c, d])
             lo, hi = max(fa, fc), min(fb, fd)
             exp_ov = lo <= hi
             r = _exc(iv.overlaps, ov)
